@@ -393,6 +393,10 @@ def TP(a, b):
     return ('P', a, b)
 
 
+def TO(t):
+    return ('O', t)          # a value that may be None; only usable after an `is (not) None` test
+
+
 def TFUN(args, ret):
     return ('F', tuple(args), ret)
 
@@ -418,6 +422,8 @@ def coq_type(t):
         return 'unit'
     if t[0] in ('L', 'S'):
         return 'list (%s)' % coq_type(t[1])
+    if t[0] == 'O':
+        return 'option (%s)' % coq_type(t[1])
     if t[0] == 'P':
         return '(%s * %s)' % (coq_type(t[1]), coq_type(t[2]))
     if t[0] == 'F':
@@ -458,6 +464,7 @@ class TX:
         self.ret_type = None
         self.notes = []
         self.fresh = set()        # python names bound to a freshly built list (safe to extend in place)
+        self.reach = None         # 'reach' extraction: translate up to the assignment of this local (Some value); an earlier return gives None
 
     # ---- types
     def coerce(self, text, have, want, node):
@@ -491,6 +498,8 @@ class TX:
         text, ty = env[r]
         if not isinstance(ty, (str, tuple)) or ty in ('EMPTYLIST', 'EMPTYDICT', 'EMPTYSET', 'DEAD', 'KEYFN'):
             die(e, 'name %s (%s) cannot be used as a value here' % (r, ty))
+        if ty[0] == 'O':
+            die(e, 'name %s may be None here (test it with `is not None` first)' % r)
         return text, ty
 
     # ---- expressions
@@ -583,6 +592,8 @@ class TX:
 
     def cond(self, e, env):
         t, ty = self.expr(e, env)
+        if ty[0] == 'L':
+            return '(0 <? py_len %s)%%Z' % t          # truth value of a list: non-empty
         if ty != T_B:
             die(e, 'truth value of a %s' % (ty,))      # python truthiness of numbers / lists is not translated
         return t
@@ -689,6 +700,15 @@ class TX:
             if ty == T_Q:
                 return '(py_%s %s %s)' % (name, ta, tb), T_Q
             die(e, '%s of %s' % (name, ty))
+        if len(args) == 1 and not kw and (name in ('max', 'min') or (
+                isinstance(fn, ast.IfExp) and {ast.unparse(fn.body), ast.unparse(fn.orelse)} <= {'max', 'min'})):
+            a = self.expr(args[0], env)
+            if a[1] != TL(T_Q):
+                die(e, 'max / min of a %s' % (a[1],))
+            if isinstance(fn, ast.IfExp):
+                return '(if %s then (py_%s_list %s) else (py_%s_list %s))' % (
+                    self.cond(fn.test, env), ast.unparse(fn.body), a[0], ast.unparse(fn.orelse), a[0]), T_Q
+            return '(py_%s_list %s)' % (name, a[0]), T_Q
         if name in ('frozenset', 'set') and len(args) == 1 and not kw and isinstance(args[0], ast.GeneratorExp):
             t = self.comp(args[0].elt, args[0].generators, env, e)
             return t, TS(self._comp_type[1])
@@ -770,9 +790,34 @@ class TX:
             return final(env)
         s, rest = stmts[0], stmts[1:]
         if isinstance(s, ast.Return):
-            if rest or s.value is None:
+            if rest:
+                die(s, 'return form')
+            if self.reach is not None:
+                return 'None'            # the function returns before the extracted local is assigned
+            if s.value is None:
                 die(s, 'return form')
             return self.finish(s.value, env)
+        ap = self.append_stmt(s)
+        if ap is not None:
+            r, item = ap
+            if r not in env:
+                die(s, 'unknown name')
+            env = dict(env)
+            t, ty = self.expr(item, env)
+            nm = self.ident(r.replace('self.', 'self_'))
+            if env[r][1] == 'EMPTYLIST':
+                env[r] = (nm, TL(ty))
+                self.fresh.add(r)
+                return 'let %s := [%s] in\n  %s' % (nm, t, self.block(rest, env, final))
+            cur = self.lookup(s.value.func.value, env)
+            if cur[1][0] != 'L' or r not in self.fresh:
+                die(s, 'append to a list that may be shared with the caller')
+            if cur[1] != TL(ty):
+                if cur[1] == TL(T_Q) and ty == T_Z:
+                    t = self.coerce(t, ty, T_Q, s)
+                else:
+                    die(s, 'append of a %s to a %s' % (ty, cur[1]))
+            return 'let %s := (%s ++ [%s]) in\n  %s' % (cur[0], cur[0], t, self.block(rest, env, final))
         if isinstance(s, ast.Raise):
             if rest or s.cause is not None or s.exc is None:
                 die(s, 'raise form')
@@ -811,6 +856,9 @@ class TX:
                 env[r] = (None, 'EMPTYSET')
                 return self.block(rest, env, final)
             t, ty = self.expr(v, env)
+            if self.reach is not None and r == self.reach:
+                self.ret_type = TO(ty)
+                return '(Some %s)' % t       # extraction stops here
             nm = self.ident(r.replace('self.', 'self_'))
             env[r] = (nm, ty)
             if isinstance(v, (ast.ListComp, ast.List, ast.BinOp)) or (isinstance(v, ast.Subscript) and isinstance(v.slice, ast.Slice)):
@@ -837,12 +885,22 @@ class TX:
             return self.for_stmt(s, rest, env, final)
         die(s, 'statement')
 
+    def append_stmt(self, s):
+        """X.append(e) as a statement -> (reference of X, e)"""
+        if (isinstance(s, ast.Expr) and isinstance(s.value, ast.Call) and isinstance(s.value.func, ast.Attribute)
+                and s.value.func.attr == 'append' and self.ref(s.value.func.value) is not None
+                and len(s.value.args) == 1 and not s.value.keywords and not isinstance(s.value.args[0], ast.Starred)):
+            return self.ref(s.value.func.value), s.value.args[0]
+        return None
+
     def assigned(self, stmts):
         out = []
         for s in stmts:
             if _is_doc(s):
                 continue
-            if isinstance(s, ast.Assign) and len(s.targets) == 1 and self.ref(s.targets[0]):
+            if self.append_stmt(s) is not None:
+                out.append(self.append_stmt(s)[0])
+            elif isinstance(s, ast.Assign) and len(s.targets) == 1 and self.ref(s.targets[0]):
                 out.append(self.ref(s.targets[0]))
             elif isinstance(s, ast.AugAssign) and self.ref(s.target):
                 out.append(self.ref(s.target))
@@ -852,20 +910,47 @@ class TX:
 
     DROPPABLE_TESTS = ('votelib.evaluate.core.accepts_prev_gains',)
 
+    def branches(self, test, env):
+        """(mk, env_then, env_else): mk(a, b) is the Coq conditional; an `x is (not) None` test on an optional value is a match
+           that gives x its plain type on the not-None path"""
+        if (isinstance(test, ast.Compare) and len(test.ops) == 1 and isinstance(test.ops[0], (ast.Is, ast.IsNot))
+                and isinstance(test.comparators[0], ast.Constant) and test.comparators[0].value is None
+                and self.ref(test.left) in env and isinstance(env[self.ref(test.left)][1], tuple) and env[self.ref(test.left)][1][0] == 'O'):
+            r = self.ref(test.left)
+            text, ty = env[r]
+            some = dict(env)
+            inner = self.ident(r.replace('self.', 'self_')) + '_v'
+            some[r] = (inner, ty[1])
+            if isinstance(test.ops[0], ast.IsNot):
+                return (lambda a, b: '(match %s with Some %s => %s | None => %s end)' % (text, inner, a, b)), some, env
+            return (lambda a, b: '(match %s with None => %s | Some %s => %s end)' % (text, a, inner, b)), env, some
+        c = self.cond(test, env)
+        return (lambda a, b: '(if %s then %s else %s)' % (c, a, b)), env, env
+
+    def stops(self, stmts):
+        """every path through stmts ends the translated function (return / raise, or - in 'reach' extraction - the target assignment)"""
+        if _terminates(stmts):
+            return True
+        if self.reach is not None:
+            for x in _strip(stmts):
+                if isinstance(x, ast.Assign) and len(x.targets) == 1 and self.ref(x.targets[0]) == self.reach:
+                    return True
+        return False
+
     def if_stmt(self, s, rest, env, final):
-        if _terminates(s.body):
-            c = self.cond(s.test, env)
-            a = self.block(s.body, env, None)
-            if s.orelse and _terminates(s.orelse):
+        if self.stops(s.body):
+            mk, et, ee = self.branches(s.test, env)
+            a = self.block(s.body, et, None)
+            if s.orelse and self.stops(s.orelse):
                 if rest:
                     die(rest[0], 'unreachable statement')
-                b = self.block(s.orelse, env, None)
+                b = self.block(s.orelse, ee, None)
             else:
-                b = self.block(list(s.orelse) + rest, env, final)
-            return '(if %s then %s else %s)' % (c, a, b)
-        if s.orelse and _terminates(s.orelse):
-            c = self.cond(s.test, env)
-            return '(if %s then %s else %s)' % (c, self.block(list(s.body) + rest, env, final), self.block(s.orelse, env, None))
+                b = self.block(list(s.orelse) + rest, ee, final)
+            return mk(a, b)
+        if s.orelse and self.stops(s.orelse):
+            mk, et, ee = self.branches(s.test, env)
+            return mk(self.block(list(s.body) + rest, et, final), self.block(s.orelse, ee, None))
         # conditional update of ONE variable
         va = sorted(set(self.assigned(s.body)))
         vb = sorted(set(self.assigned(s.orelse))) if s.orelse else va
@@ -878,27 +963,37 @@ class TX:
 
         def fin(e2):
             t, ty = e2[r]
-            if not isinstance(ty, (str, tuple)) or ty in ('EMPTYLIST', 'EMPTYDICT', 'EMPTYSET', 'DEAD', 'KEYFN'):
+            if ty == 'EMPTYLIST':
+                return '[]'                      # a list still empty on this path
+            if not isinstance(ty, (str, tuple)) or ty in ('EMPTYDICT', 'EMPTYSET', 'DEAD', 'KEYFN'):
                 die(s, 'conditional update of %s' % r)
             res.setdefault('ty', ty)
             if res['ty'] != ty:
                 die(s, 'types of %s on the two paths' % r)
             return t
+        droppable = isinstance(s.test, ast.Call) and ast.unparse(s.test.func) in self.DROPPABLE_TESTS
+        if droppable:
+            mk, et, ee = None, env, env
+        else:
+            mk, et, ee = self.branches(s.test, env)
         fresh0 = set(self.fresh)
-        a = self.block(s.body, env, fin)
+        a = self.block(s.body, et, fin)
         fa = r in self.fresh
         self.fresh = set(fresh0)
-        b = self.block(s.orelse, env, fin) if s.orelse else fin(env)
-        fb = r in self.fresh
+        b = self.block(s.orelse, ee, fin) if s.orelse else fin(ee)
+        fb = r in self.fresh or (not s.orelse and env[r][1] == 'EMPTYLIST')
+        if 'ty' not in res:
+            die(s, 'conditional update of %s gives it no value' % r)
         nm = self.ident(r.replace('self.', 'self_'))
         env = dict(env)
         env[r] = (nm, res['ty'])
         (self.fresh.add if (fa and fb) else self.fresh.discard)(r)
-        if a == b and isinstance(s.test, ast.Call) and ast.unparse(s.test.func) in self.DROPPABLE_TESTS:
+        if droppable:
+            if a != b:
+                die(s.test, 'introspection test with different paths')
             self.notes.append('test %s at line %d dropped: both paths translate to the same term' % (ast.unparse(s.test), s.lineno))
             return 'let %s := (%s) in\n  %s' % (nm, a, self.block(rest, env, final))
-        c = self.cond(s.test, env)
-        return 'let %s := (if %s then %s else %s) in\n  %s' % (nm, c, a, b, self.block(rest, env, final))
+        return 'let %s := %s in\n  %s' % (nm, mk(a, b), self.block(rest, env, final))
 
     def for_stmt(self, s, rest, env, final):
         if s.orelse:
@@ -986,6 +1081,8 @@ def _check_ctor(cd, attrs, special):
                 stores.setdefault(t.attr, []).append(n)
     top = set(id(s) for s in init.body)
     for a in attrs:
+        if special.get(a) == '*':
+            continue       # the definition is a function of the STORED attribute, however the constructor computes it
         st_ = stores.get(a, [])
         if len(st_) != 1 or id(st_[0]) not in top or not isinstance(st_[0], ast.Assign):
             die(init, 'attribute %s is not stored exactly once at the top level of __init__' % a)
@@ -1155,6 +1252,19 @@ def translate_typed(path, defs, module):
                         return t
                     text = tx.block(fd.body[:idx + 1], env, final)
                     ret = tx.ret_type
+            elif kind == 'reach':
+                tx.reach = d['target']
+                if d.get('target_free_of'):
+                    # the local to extract is named by its role: the k-th local read by the comprehension assigned to <name>
+                    cname_, k = d['target_free_of']
+                    fl = _free_locals(fd, _find_comp(fd, cname_)[1])
+                    if k >= len(fl):
+                        die(fd, 'free local #%d of the comprehension %s' % (k, cname_))
+                    tx.reach = fl[k]
+                text = tx.block(fd.body, env, None)
+                ret = tx.ret_type
+                if ret is None:
+                    die(fd, 'local %s is never assigned' % d['target'])
             else:
                 raise Unsupported('kind %s' % kind)
             plist = ' '.join('(%s : %s)' % (cn, coq_type(ty)) for cn, r, ty in d['params'])
@@ -1218,6 +1328,10 @@ TYPED_JOBS = [
     ('Openlist', 'votelib/evaluate/openlist.py', [
         dict(name='ThresholdOpenList_jump_test', cls='ThresholdOpenList', fn='evaluate', kind='comp_if', target='jumping',
              params=[P_AE, ('threshold', '@free0', T_Q), ('n_votes', '@target1', T_Q)]),
+        dict(name='ThresholdOpenList_threshold', cls='ThresholdOpenList', fn='evaluate', kind='reach', target='threshold', target_free_of=('jumping', 0),
+             ctor={'quota_function': '*'},
+             params=[('jump_fraction', 'self.jump_fraction', TO(T_Q)), ('quota_function', 'self.quota_function', TO(TFUN([T_Q, T_Z], T_Q))),
+                     ('take_higher', 'self.take_higher', T_B), ('votes', 'votes', VOTES), ('n_seats', 'n_seats', T_Z)]),
         dict(name='ThresholdOpenList_jumping', cls='ThresholdOpenList', fn='evaluate', kind='comp', target='jumping',
              params=[P_AE, ('threshold', '@free0', T_Q), ('votes', 'votes', VOTES)]),
     ]),
